@@ -100,6 +100,7 @@ pub fn run(name: &str, _seed: u64, tier: &str) -> Value {
         "c10_table" => crate::phys::c10_table(tier),
         #[cfg(feature = "physics")]
         "c19_sort" => crate::phys::c19_sort(tier),
+        "c13_dims" => crate::ring::c13_dims(tier),
         "c02_table" => crate::tables::c02_table(tier),
         "c03_table" => crate::tables::c03_table(tier),
         "c05_table" => crate::tables::c05_table(tier),
